@@ -105,6 +105,45 @@ func modeScenario(s *hx.Seq) {
 				s.Fail("mode-relative-unknown "+name, fmt.Sprintf("got %v (%v), expected the first value %q", got, err, md.Values[0].Name), nil)
 			}
 		}
+		// a relative step for a name that is not a mode of this model changes nothing - the first time it is asked
+		// and every time after, whatever was looked up before (what values a mode has depends on its name alone)
+		if len(cfg.modes.Modes) > 0 {
+			s.Eval(1)
+			m := cfg.mk()
+			srv := modepb.NewModelServer(m)
+			name := cfg.name + " relative step on a name that is not a mode, asked three times"
+			s.State(name)
+			first := cfg.modes.Modes[0]
+			var errs []error
+			var after []*traits.ModeValues
+			var moved string
+			if p := guard(func() {
+				got, err := srv.UpdateModeValues(ctx, &traits.UpdateModeValuesRequest{Name: "n", Relative: &traits.ModeValuesRelative{Values: map[string]int32{first.Name: 1}}})
+				errs = append(errs, err)
+				moved = got.GetValues()[first.Name]
+				for i := 0; i < 3; i++ {
+					got, err := srv.UpdateModeValues(ctx, &traits.UpdateModeValuesRequest{Name: "n", Relative: &traits.ModeValuesRelative{Values: map[string]int32{"no-such-mode": 1}}})
+					errs = append(errs, err)
+					after = append(after, got)
+				}
+			}); p != nil {
+				s.Fail("panic "+name, fmt.Sprint(p), nil)
+			} else {
+				for i, got := range after {
+					if got == nil {
+						continue // refused: fine as well
+					}
+					if v, ok := got.Values["no-such-mode"]; ok {
+						s.Fail("mode-relative-unknown-name "+name, fmt.Sprintf("request %d stored the value %q for %q, which is not a mode of the model; errors %v", i+1, v, "no-such-mode", errs), nil)
+						break
+					}
+					if got.Values[first.Name] != moved {
+						s.Fail("mode-relative-unknown-name-moved "+name, fmt.Sprintf("request %d moved mode %s from %q to %q", i+1, first.Name, moved, got.Values[first.Name]), nil)
+						break
+					}
+				}
+			}
+		}
 	}
 	s.Sample("default and custom mode lists: configuration used, initial values, relative steps -4..4 from every value (wrapping), unknown current value")
 }
